@@ -98,6 +98,9 @@ fn cmd_worker(args: &[String]) -> i32 {
     let stdin = std::io::stdin();
     let stdout = std::io::stdout();
     let mut minimised = 0u32;
+    // violations of one class reported by this worker so far (a thorough run would otherwise ship
+    // hundreds of thousands of full cases of the same known finding to the supervisor)
+    let mut sent: BTreeMap<String, u32> = BTreeMap::new();
     let runlog = std::env::var_os("VERIF_RUNLOG").is_some();
     for line in stdin.lock().lines() {
         let line = line.unwrap();
@@ -125,6 +128,21 @@ fn cmd_worker(args: &[String]) -> i32 {
                 v.seed = s;
                 v.index = i;
                 stats.inc("violations_raw");
+                // after the first few of a class only count (known findings by id, others by oracle+signature)
+                let (class, cap) = match kf_match(&kfs, &v) {
+                    Some(k) => (format!("known:{}", k.id), 3),
+                    None => (format!("{}|{}", v.oracle, v.signature), 25),
+                };
+                let n = sent.entry(class.clone()).or_insert(0);
+                *n += 1;
+                if *n > cap {
+                    if let Some(id) = class.strip_prefix("known:") {
+                        stats.inc(&format!("known_hits_counted_in_worker:{id}"));
+                    } else {
+                        stats.inc("violations_of_a_class_already_reported_by_this_worker");
+                    }
+                    continue;
+                }
                 let v = if minimised < 12 {
                     minimised += 1;
                     minimise_class(prop.as_ref(), &v, &kfs)
@@ -478,6 +496,13 @@ fn cmd_check(args: &[String]) -> i32 {
             novel.push(v);
         }
     }
+    // known-finding hits that the workers only counted
+    for k in &kfs {
+        let n = stats.c.get(&format!("known_hits_counted_in_worker:{}", k.id));
+        if n > 0 {
+            known_hit.entry(k.id.clone()).or_insert((k.description.clone(), 0)).1 += n;
+        }
+    }
     for (kid, (desc, n)) in &known_hit {
         println!("KNOWN-FINDING: property={id} {kid}: {desc} (hit {n} times)");
     }
@@ -563,7 +588,8 @@ fn cmd_check(args: &[String]) -> i32 {
         "violations": novel.len(),
         "coverage": {
             "evaluations": evals,
-            "distinct_nontrivial": stats.digests.len(),
+            "distinct_nontrivial": stats.distinct(),
+            "distinct_nontrivial_is_estimate": stats.digest_shift > 0,
             "rule": prop.rule(),
             "samples": stats.samples,
             "simulated_runs": runs,
@@ -596,7 +622,7 @@ fn cmd_check(args: &[String]) -> i32 {
     println!(
         "DONE property={id} runs={runs} compilations={} distinct={} violations={} known={} wall={wall:.1}s",
         stats.c.get("compilations"),
-        stats.digests.len(),
+        stats.distinct(),
         novel.len(),
         known_hit.len()
     );
